@@ -539,6 +539,21 @@ def _resolve_arg(action, choices, param, required, typ):
     )
 
 
+def _is_literal_member(node):
+    """
+    Whether the node is a constant member of a `Literal[...]`, including signed numbers like `-1`
+
+    :param node: AST node
+    :type node: ```AST```
+
+    :returns: Whether it is a constant (`-1` is a `UnaryOp` around a constant)
+    :rtype: ```bool```
+    """
+    return isinstance(node, (Constant, Str)) or (
+        isinstance(node, UnaryOp) and isinstance(node.operand, (Constant, Num))
+    )
+
+
 def _parse_node_for_arg(_required, action, choices, node, typ):
     """
     Resolve the arg type, required status, and choices
@@ -564,7 +579,7 @@ def _parse_node_for_arg(_required, action, choices, node, typ):
     if (
         isinstance(node, Subscript)
         and getattr(node.value, "id", None) == "Literal"
-        and isinstance(node.slice if PY_GTE_3_9 else node.slice.value, (Constant, Str))
+        and _is_literal_member(node.slice if PY_GTE_3_9 else node.slice.value)
     ):
         # `Literal['a']`: a single member is not wrapped in a tuple
         node = Tuple(
@@ -572,7 +587,7 @@ def _parse_node_for_arg(_required, action, choices, node, typ):
         )
     if isinstance(node, Tuple):
         maybe_choices = tuple(
-            get_value(elt) for elt in node.elts if isinstance(elt, (Constant, Str))
+            get_value(elt) for elt in node.elts if _is_literal_member(elt)
         )
         if len(maybe_choices) == len(node.elts):
             choices = maybe_choices
